@@ -54,11 +54,17 @@ def instances(tier, seed):
             # one instance per (scenario, target variant)
             state, names = c11.initial_state(inst["tset"], inst["N"], inst["placement"])
             big = len(state[1]) >= 18
+            medium = len(state[1]) >= 12
+            n_removed = 0
             for tname, _ in target_variants(state, names, tier, False):
                 if "+" in tname and tier == "quick":
                     continue
                 if big and tier == "quick" and tname.startswith(("zeroed", "graded")):
                     continue
+                if medium and tier == "quick" and tname.startswith("removed"):
+                    n_removed += 1
+                    if n_removed > (2 if big else 4):
+                        continue
                 yield dict(inst, target=tname)
             continue
         yield inst
